@@ -107,7 +107,7 @@ def classify(fam, opid, kindname, st, exc, found, int_targets):
             continue        # <= 4 ulp between two NumPy loops of a function that is not correctly rounded
         elif a == "target-rounding":
             key = "C18[%s:%s:target-rounding]" % (fam, kindname)
-        elif fam.startswith("ufunc") and kindname.startswith("int") and a.startswith("target-"):
+        elif fam.startswith(("ufunc", "augmented")) and kindname.startswith("int") and a.startswith("target-"):
             key = "C18[%s:%s:%s:%s]" % (fam, name, kindname, a)
         elif fam.startswith("ufunc") and a.startswith("after-raise-"):
             key = "C18[%s:%s:%s:%s]" % (fam, name, form, a)
@@ -548,7 +548,7 @@ def run_binary_ufuncs():
                                     pre="o = unyt.unyt_array(np.full(np.broadcast(np.asarray(a), np.asarray(b)).shape, 7, dtype='int32'), 'cd')",
                                     copy_pre="", kindname="flt-narrow")
                             inplace("ufunc-out", opid + ("out=wrong-shape-int",), S, "np.%s(a, b, out=o)" % n, [("o", "r", "copy")], "r = " + call,
-                                    pre="o = unyt.unyt_array(np.full((7, 3), 7, dtype='int64'), 'cd')", copy_pre="", kindname="out-int64")
+                                    pre="o = unyt.unyt_array(np.full((7, 3), 7, dtype='int64'), 'cd')", copy_pre="")
                             inplace("ufunc-out", opid + ("out=bare",), S, "np.%s(a, b, out=o)" % n, [("o", "r", None)], "r = " + call,
                                     pre="o = np.full(np.broadcast(np.asarray(a), np.asarray(b)).shape, 7, dtype=np.asarray(a).dtype)", copy_pre="")
                             inplace("ufunc-out", opid + ("swapped:out=a",), S, "np.%s(b, a, out=a)" % n, [("a", "r", "copy")], "r = np.%s(b, a)" % n)
